@@ -486,6 +486,7 @@ Proof.
   destruct (tokenize src final) as [toks| | |]; cbn [bind]; try (split; [exact I|intros; discriminate]); try contradiction.
   pose proof (expand_dirname_ok toks final (proj1 Hf) (proj2 Hf)) as Hexp.
   destruct (expand_dirname cwd toks final) as [toks'| | |]; cbn [bind]; try (split; [exact Hexp|intros; discriminate]).
+  cbv zeta. destruct (tk_is (t_kind (last _ _)) TImport); [split; [exact I|intros; discriminate]|].
   destruct (inv_semi_not_last s1 Hi1 Hsemi) as (semi & after & Er & Hane & Hlast2).
   rewrite Er. split; [exact I|]. intros s2 H. inv_ok H.
   destruct Hi1 as [_ Hk]. eapply inv_after_splice; eauto.
